@@ -18,6 +18,7 @@ rundemo() {
       arch|arch_test) sub=arch ;;
       disasm|disasm_test) sub=cmd/seccomp-profiler/disasm ;;
       unix|unix_test) sub=internal/unix ;;
+      main) if grep -q "cmd/sandbox" "$SRC/meta.json"; then sub=cmd/sandbox; else sub=cmd/seccomp-profiler; fi ;;
       *) sub=zz_seeddemo; mkdir -p "$W/zz_seeddemo" ;;
     esac
     for f in "$SRC"/*_test.go; do cp "$f" "$W/$sub/zz_seed_$(basename "$f")"; done
